@@ -17,6 +17,8 @@ def always_exits(stmts: list[ast.stmt]) -> bool:
 	for s in stmts:
 		if isinstance(s, (ast.Return, ast.Raise, ast.Continue, ast.Break)):
 			return True
+		if isinstance(s, ast.Assert) and isinstance(s.test, ast.Constant) and not s.test.value:
+			return True
 		if isinstance(s, ast.If) and s.orelse and always_exits(s.body) and always_exits(s.orelse):
 			return True
 	return False
